@@ -10,6 +10,12 @@ func lemmaObligations(s *Session, prop, tier string) ([]*Obligation, []interface
 		obls = append(obls, frameLemmaObligations([]string{prop})...)
 		obls = append(obls, hintLemmaObligations([]string{prop})...)
 	}
+	if prop == "C02" || prop == "C12" {
+		obls = append(obls, sliceLemmaObligations([]string{prop})...)
+	}
+	if prop == "C10" || prop == "C11" {
+		obls = append(obls, poolLemmaObligations([]string{prop})...)
+	}
 	switch prop {
 	case "C06":
 		obls = append(obls, s.lemmasC06()...)
